@@ -207,12 +207,22 @@ impl Service {
             rtype = UpdateInstanceType::New;
         }
         let new_instance = Arc::new(instance);
-        // 非来自集群的更新才维护实例心跳检测
-        if new_instance.is_enable_timeout() && !from_sync {
-            self.healthy_timeout_set.add(
-                new_instance.last_modified_millis as u64,
-                new_instance.get_short_key(),
-            );
+        // 本节点负责的临时实例(from_cluster为0)都需要维护心跳检测,
+        // 包括通过集群snapshot同步回来的本节点实例,否则这些实例停止心跳后永远不会过期
+        let _ = from_sync;
+        if new_instance.is_enable_timeout() {
+            if new_instance.healthy {
+                self.healthy_timeout_set.add(
+                    new_instance.last_modified_millis as u64,
+                    new_instance.get_short_key(),
+                );
+            } else {
+                //已经是不健康的实例只需等待下线超时
+                self.unhealthy_timeout_set.add(
+                    new_instance.last_modified_millis as u64,
+                    new_instance.get_short_key(),
+                );
+            }
         }
         if !new_instance.ephemeral && perpetual_changed {
             perpetua_type = UpdatePerpetualType::Update;
